@@ -151,6 +151,8 @@ def check(ctx: Ctx):
     z = [s for s in hg2.node.body if isinstance(s, ast.If) and norm(s.test) == "self._potential_gain == 0"]
     ctx.check(len(z) == 1, "R-GAIN", "MGM2: a null potential gain never moves", hg2, z[0] if z else hg2.node, "gain 0 means no improvement: no move and no arbitration")
     G.check_go_decision(ctx, hg2, "R-GO")
+    G.check_offer_slots(ctx, repo, "R-GO")
+    G.check_mgm_costmodel(ctx, cb, hv, "R-GAIN")
     # flows
     mk = [c for c in walk_no_nested(sg2.node) if isinstance(c, ast.Call) and call_name(c) == "Mgm2GainMessage"]
     ctx.check(len(mk) == 1 and norm(mk[0].args[0]) == "self._potential_gain", "R-FLOW", "MGM2: the gain sent is the potential gain", sg2, mk[0] if mk else sg2.node, "")
@@ -193,6 +195,8 @@ def check(ctx: Ctx):
 _M = "pydcop/algorithms/mgm.py"
 _M2 = "pydcop/algorithms/mgm2.py"
 VARIANTS = [
+    ("mgm2_accepted_offer_unpacked_in_offerer_order", _M2, "                val_p, self._potential_value, partner_name = random.choice(best_offers)", "                self._potential_value, val_p, partner_name = random.choice(best_offers)", "break", "R-GO"),
+    ("mgm_argmin_without_own_cost", _M, "            lambda x: functools.reduce(operator.add, [f(x) for f in reduced_cs])\n            + self.variable.cost_for_val(x),", "            lambda x: functools.reduce(operator.add, [f(x) for f in reduced_cs]),", "break", "R-GAIN"),
     ("mgm2_leaf_pair_never_goes", _M2, "            if neigh_gains == [] or self._is_better_gain(", "            if neigh_gains and self._is_better_gain(", "break", "R-GO"),
     ("mgm_mode_blind_again", _M, "            if self._mode == \"min\":\n                max_neighbors = max([gain for gain, _ in gains.values()])\n                is_best = self._gain > max_neighbors\n            else:\n                max_neighbors = min([gain for gain, _ in gains.values()])\n                is_best = self._gain < max_neighbors",
      "            max_neighbors = max([gain for gain, _ in gains.values()])\n            is_best = self._gain > max_neighbors", "break", "R-MODE.d"),
